@@ -1076,6 +1076,17 @@ class DecimalShiftInstruction(Instruction):
                 next_carry = T_low_nibble
                 addr_update = il.add(3, current_addr_reg.lift(il), il.const(3, 1))
 
+            # (m--) / (m++) count within the 256-byte internal memory
+            addr_update = il.add(
+                3,
+                il.const(3, INTERNAL_MEMORY_START),
+                il.and_expr(
+                    3,
+                    il.sub(3, addr_update, il.const(3, INTERNAL_MEMORY_START)),
+                    il.const(3, 0xFF),
+                ),
+            )
+
             shifted_byte_S = il.or_expr(1, shift_part, carry_part)
             # Use AddressingMode.N since current_addr_reg already contains the final address
             mem_accessor.lift_assign(il, shifted_byte_S, pre=AddressingMode.N)
